@@ -50,9 +50,10 @@ static void apply_op(jwt_t *jwt, int op)
 }
 
 typedef struct { int n; int op[4]; int ret; } prog_t;
+static prog_t *g_prog;	/* callbacks registered with a NULL context find their program here */
 static int prog_cb(jwt_t *jwt, jwt_config_t *cfg)
 {
-	prog_t *p = cfg->ctx;
+	prog_t *p = cfg->ctx ? cfg->ctx : g_prog;
 	for (int i = 0; i < p->n; i++) apply_op(jwt, p->op[i]);
 	return p->ret;
 }
